@@ -1122,7 +1122,7 @@ class ArgumentParser(ParserDeprecations, ActionsContainer, ArgumentLinking, argp
                     ) from ex
             subcommand, subparser = _ActionSubCommands.get_subcommand(parser, cfg, fail_no_subcommand=False)
             if subcommand is not None and subparser is not None:
-                check_required(cfg.get(subcommand), subparser, prefix + subcommand + ".")
+                check_required(cfg.get(subcommand) or Namespace(), subparser, prefix + subcommand + ".")
 
         def check_values(cfg):
             sorted_keys = {k: _find_action(self, k) for k in cfg.get_sorted_keys()}
